@@ -122,6 +122,23 @@ theorem choiOfMap_applyChoi (din dout : ℕ) (C : ℕ → ℕ → R) (x y : ℕ)
     exact sum_eq_zero fun j _ => by simp [hi]
   · intro h; exact absurd (mem_range.2 hxi) h
 
+omit [StarRing R] in
+/-- `hf_channel_to_kraus_op` first tabulates the super-operator of the map: for `Φ = apply_choi_op(C, ·)` that is `choi_op_to_super_op(C)`. -/
+theorem superOfMap_applyChoi (din dout : ℕ) (C : ℕ → ℕ → R) (r c : ℕ) (hc : c < din * din) :
+    superOfMap din dout (applyChoi din dout C) r c = choiToSuper din dout C r c := by
+  have hpos : 0 < din := Nat.pos_of_ne_zero (by rintro rfl; simp at hc)
+  have h1 : c / din < din := (Nat.div_lt_iff_lt_mul hpos).2 hc
+  have h2 : c % din < din := Nat.mod_lt _ hpos
+  simp only [superOfMap, applyChoi, choiToSuper, sumRange_eq_sum]
+  rw [sum_eq_single (c / din)]
+  · rw [sum_eq_single (c % din)]
+    · simp
+    · intro j _ hj; simp [hj]
+    · intro h; exact absurd (mem_range.2 h2) h
+  · intro i _ hi
+    exact sum_eq_zero fun j _ => by simp [hi]
+  · intro h; exact absurd (mem_range.2 h1) h
+
 /-! ## complete positivity and trace preservation -/
 
 /-- the Choi operator of a Kraus set is Hermitian … -/
